@@ -14,6 +14,9 @@
  *                                                   vnacal_new_add_single_reflect_m (order 0: after
  *                                                   set_frequency_vector; 1: before, so that
  *                                                   set_frequency_vector runs the check)
+ *   newparh order pre others before nf <cal fs> np <par fs>
+ *                                                   the same inside a history that must not matter
+ *                                                   (see the code)
  *   merr nf <cal fs> np <fs> <sigma_nf: np> tr      vnacal_new_set_m_error with its own grid
  *                                                   (tr=1: sigma_tr = 2 * sigma_nf also given)
  *   apply nf <cal fs> k <fs: k>                     1x1 E12 calibration solved from short/open/match,
@@ -183,8 +186,17 @@ int main(void)
 	    printf("\n");
 	    vnacal_free(vcp);
 	    free(fs); free(sg); free(q);
-	} else if (strcmp(op, "newpar") == 0) {
+	} else if (strcmp(op, "newpar") == 0 || strcmp(op, "newparh") == 0) {
+	    /*
+	     * newparh: the same decision inside a history that must not matter: `pre` unrelated
+	     * parameters exist before the vector parameter is made (so its handle is 3 + pre),
+	     * `others` further standards (short, open, match, then unrelated scalar parameters, some
+	     * made after the vector parameter) are added to the same vnacal_new_t, `before` of them
+	     * before the standard under test.
+	     */
+	    int hist = op[6] == 'h';
 	    int order = rdi();
+	    int pre = hist ? rdi() : 0, others = hist ? rdi() : 0, before = hist ? rdi() : 0;
 	    int nf = rdi();
 	    double *cf = rdvec(nf);
 	    int np = rdi();
@@ -192,24 +204,56 @@ int main(void)
 	    cx *gs = malloc(np * sizeof(cx));
 	    for (int i = 0; i < np; ++i) gs[i] = -1.0 + 0.01 * i;
 	    vnacal_t *vcp = vnacal_create(error_fn, NULL);
+	    int nfill = pre + others;
+	    int *fillp = malloc((nfill > 0 ? nfill : 1) * sizeof(int));
+	    cx *fillg = malloc((nfill > 0 ? nfill : 1) * sizeof(cx));
+	    int setup_bad = 0;
+	    for (int i = 0; i < pre; ++i) {
+		fillg[i] = 0.3 + 0.01 * i - 0.2 * I;
+		if ((fillp[i] = vnacal_make_scalar_parameter(vcp, fillg[i])) < 0) setup_bad = 1;
+	    }
 	    int p = vnacal_make_vector_parameter(vcp, pf, np, gs);
+	    for (int i = pre; i < nfill; ++i) {
+		fillg[i] = -0.4 + 0.01 * i + 0.1 * I;
+		if ((fillp[i] = vnacal_make_scalar_parameter(vcp, fillg[i])) < 0) setup_bad = 1;
+	    }
 	    vnacal_new_t *vnp = new_1x1(vcp, nf);
-	    int rc1, rc2;
+	    int rc1 = 0, rc2;
+	    /* the k-th other standard: short, open, match, then the fillers from the last to the first */
+#define OTHER_PARAM(k) ((k) == 0 ? VNACAL_SHORT : (k) == 1 ? VNACAL_OPEN : (k) == 2 ? VNACAL_MATCH : \
+	    fillp[(nfill - 1 - ((k) - 3)) % (nfill > 0 ? nfill : 1)])
+#define OTHER_GAMMA(k) ((k) == 0 ? -1.0 : (k) == 1 ? 1.0 : (k) == 2 ? 0.0 : \
+	    fillg[(nfill - 1 - ((k) - 3)) % (nfill > 0 ? nfill : 1)])
+	    if (others > 3 && nfill == 0) others = 3;
+	    if (before > others) before = others;
 	    if (order == 0) {
 		rc1 = vnacal_new_set_frequency_vector(vnp, cf);
+		for (int k = 0; k < before; ++k)
+		    if (add_reflect(vnp, nf, cf, OTHER_PARAM(k), OTHER_GAMMA(k)) != 0) setup_bad = 1;
 		errors = 0;
 		rc2 = add_reflect(vnp, nf, cf, p, -1.0);
+		int e2 = errors;
+		for (int k = before; k < others; ++k)
+		    if (add_reflect(vnp, nf, cf, OTHER_PARAM(k), OTHER_GAMMA(k)) != 0) setup_bad = 1;
+		errors = e2;
 	    } else {
+		for (int k = 0; k < before; ++k)
+		    if (add_reflect(vnp, nf, cf, OTHER_PARAM(k), OTHER_GAMMA(k)) != 0) setup_bad = 1;
 		rc1 = add_reflect(vnp, nf, cf, p, -1.0);
+		for (int k = before; k < others; ++k)
+		    if (add_reflect(vnp, nf, cf, OTHER_PARAM(k), OTHER_GAMMA(k)) != 0) setup_bad = 1;
 		errors = 0;
 		rc2 = vnacal_new_set_frequency_vector(vnp, cf);
 	    }
-	    printf("newpar %s\n", p < 0 || rc1 != 0 ? "SETUPFAIL" :
+#undef OTHER_PARAM
+#undef OTHER_GAMMA
+	    printf("%s %s\n", op, p < 0 || rc1 != 0 || setup_bad ? "SETUPFAIL" :
 		    rc2 == 0 && errors == 0 ? "ACC" : rc2 == -1 && errors == 1 ? "REJ" : "ODD");
 	    vnacal_new_free(vnp);
 	    vnacal_delete_parameter(vcp, p);
+	    for (int i = 0; i < nfill; ++i) vnacal_delete_parameter(vcp, fillp[i]);
 	    vnacal_free(vcp);
-	    free(cf); free(pf); free(gs);
+	    free(cf); free(pf); free(gs); free(fillp); free(fillg);
 	} else if (strcmp(op, "merr") == 0) {
 	    int nf = rdi();
 	    double *cf = rdvec(nf);
